@@ -77,6 +77,7 @@ func main() {
 	encryptSide(r)
 	encryptValueSide(r)
 	encryptLongSide(r)
+	wrappersSide(r)
 	stanzaSide(r)
 	// The metered part runs alone: every worker of the parallel parts above has
 	// returned (mon.Par waits), nothing else allocates.
